@@ -5,6 +5,8 @@ import (
 	"fmt"
 	"os"
 
+	"github.com/go-openapi/spec"
+
 	"verif/harness/internal/refgraph"
 )
 
@@ -60,5 +62,24 @@ func stressMain(path string, n int) {
 		}
 	}
 	fmt.Printf("stress: %d runs, %d distinct outputs, %d oracle failures\n", n, len(distinct), bad)
+	// single definitions through ExpandSchemaWithBasePath: no cache, then one default-type cache reused
+	els := rootElements(w, "definitions", "schemaWithBase")
+	shared := spec.VerifDefaultCache()
+	bad2, outs2 := 0, map[string]int{}
+	for i := 0; i < n; i++ {
+		for _, el := range els {
+			for mode, cache := range map[string]spec.ResolutionCache{"nil": nil, "shared": shared} {
+				got := runEntryInline(w, el, cache, loaderFor(w, nil, nil))
+				outs2[got.Out]++
+				if !meansInput(w, el, got) {
+					bad2++
+					if bad2 <= 3 {
+						fmt.Println("run", i, "element", el.Path, "cache", mode, "does not mean the input:", got.Err, clip(got.Out))
+					}
+				}
+			}
+		}
+	}
+	fmt.Printf("stress: %d single-definition expansions, %d distinct outputs, %d meaning failures\n", n*len(els)*2, len(outs2), bad2)
 	_ = refgraph.PtrEscape
 }
